@@ -135,8 +135,11 @@ def gen_rfc_head(r):
     fr = r.choice([[], [], [(b"Content-Length", b" 0")], [(b"content-length", b"42 ")], [(b"Content-Length", b"7"), (b"CONTENT-LENGTH", b"\t7")],
                    [(b"Transfer-Encoding", b" chunked")], [(b"Transfer-Encoding", b"gzip"), (b"transfer-encoding", b"deflate , Chunked ")],
                    [(b"Transfer-Encoding", b"gzip,chunked,"), (b"Content-Length", b"18446744073709551615")]])
-    for f in fr:
-        fields.insert(r.randrange(len(fields) + 1), f)
+    pos = 0
+    for f in fr:  # keep the relative order of the framing fields (the final coding is in the LAST TE line)
+        pos = r.randrange(pos, len(fields) + 1)
+        fields.insert(pos, f)
+        pos += 1
     head = m + b" " + t + b" HTTP/1." + minor + b"\r\n" + b"".join(k + b":" + v + b"\r\n" for k, v in fields) + b"\r\n"
     tail = G.rstr(r, bytes(range(256)), r.choice([0, 0, 1, 9, 50]))
     hs, cl = collect_view(fields)
